@@ -410,12 +410,20 @@ func tamperPkt(t string, pkt []byte) []byte {
 type oracle struct {
 	k      []byte // raw shared secret (big-endian integer / x coordinate / X25519 output), nil = unknown
 	mk, xk []byte // mlkem: the two component secrets
+	alts   [][]byte // the secret is one of these (the peer cannot tell which)
 }
 
 func (o oracle) String() string {
 	s := " ok=" + hx.Hex(o.k)
 	if o.k == nil {
 		s = " ok=?"
+	}
+	if o.alts != nil {
+		a := make([]string, len(o.alts))
+		for i, x := range o.alts {
+			a[i] = hx.Hex(x)
+		}
+		s += " oks=" + strings.Join(a, ",")
 	}
 	if o.mk != nil || o.xk != nil {
 		s += " omk=" + hx.Hex(o.mk) + " oxk=" + hx.Hex(o.xk)
@@ -456,9 +464,29 @@ func peerServer(m *method, c *pconn, t string, r *hx.Rand, hkBlob []byte, o hx.O
 		reply(31, hkBlob, enc)
 	case "gex":
 		// request is ignored by this peer except that it is answered; the group is scripted
-		var p *big.Int
+		var p, sq1 *big.Int // sq1: a square root of 1 mod p other than ±1 (composite p)
 		pt := o.Str("gp")
 		switch pt {
+		case "comp":
+			for {
+				a := new(big.Int).SetBytes(r.Bytes(128))
+				b := new(big.Int).SetBytes(r.Bytes(128))
+				a.SetBit(a, 0, 1).SetBit(a, 1023, 1)
+				b.SetBit(b, 0, 1).SetBit(b, 1023, 1)
+				inv := new(big.Int).ModInverse(a, b)
+				if inv == nil {
+					continue
+				}
+				p = new(big.Int).Mul(a, b)
+				if p.BitLen() != 2048 {
+					continue
+				}
+				// y ≡ 1 (mod a), y ≡ -1 (mod b)
+				t := new(big.Int).Mul(big.NewInt(-2), inv)
+				t.Mod(t, b)
+				sq1 = new(big.Int).Add(one, new(big.Int).Mul(a, t))
+				break
+			}
 		case "g14":
 			p = hexInt(g14hex)
 		case "g16":
@@ -508,7 +536,14 @@ func peerServer(m *method, c *pconn, t string, r *hx.Rand, hkBlob []byte, o hx.O
 		}
 		y := randBelow(r, new(big.Int).Rsh(p, 1))
 		f := new(big.Int).Exp(g, y, p)
-		enc, honest := tamperDH(vt, f, p, r)
+		var enc []byte
+		var honest bool
+		if vt == "ysq1" { // Y of order 2: the client derives k = 1 (even x) or k = Y (odd x)
+			enc = wMpint(sq1)
+			or.alts = [][]byte{{1}, sq1.Bytes()}
+		} else {
+			enc, honest = tamperDH(vt, f, p, r)
+		}
 		if honest && e.Sign() > 0 {
 			k := new(big.Int).Exp(e, y, p).Bytes()
 			if k == nil {
@@ -1120,6 +1155,10 @@ func gen(g *hx.Gen) {
 				for _, t := range append(append([]string(nil), dhTampers...), pktTampers...) {
 					emitKex(g, m.name, hk, "pc", t, " mm=- gp=g14 gg=2")
 				}
+				for i := 0; i < 6; i++ { // composite modulus, Y² = 1: exercises the derived-k check
+					emitKex(g, m.name, hk, "pc", "ysq1", " mm=- gp=comp gg=2")
+				}
+				emitKex(g, m.name, hk, "pc", "-", " mm=- gp=comp gg=2")
 				// scripted client: requests, then value tampers
 				reqs := [][3]uint32{{2048, 2048, 8192}, {1024, 2048, 8192}, {2048, 3072, 8192}, {2048, 4096, 4096}, {3072, 3072, 3072}, {2049, 3000, 3071}, {4096, 8192, 8192}, {4097, 8192, 8192}, {1024, 1024, 2047}, {1024, 1024, 2048}, {0, 0, 1<<32 - 1}, {3000, 2999, 4000}, {3000, 4001, 4000}, {4000, 3000, 3000}, {0, 1<<32 - 1, 1<<32 - 1}}
 				for _, q := range reqs {
